@@ -19,6 +19,25 @@ pub fn is_tag_char(c: u8) -> bool {
 pub fn is_quoted_safe(c: u8) -> bool {
     (1..=127).contains(&c) && c != b'\r' && c != b'\n' && c != b'"' && c != b'\\'
 }
+/// quoted-safe bytes, with `\` and `"` only as the escape pairs `\\` and `\"`: such a string can be sent between
+/// double quotes as it stands, and the crate (which does not unescape) returns it as it stands
+pub fn is_escaped_wellformed(b: &[u8]) -> bool {
+    let mut k = 0;
+    while k < b.len() {
+        if b[k] == b'\\' {
+            if k + 1 < b.len() && (b[k + 1] == b'\\' || b[k + 1] == b'"') {
+                k += 2;
+                continue;
+            }
+            return false;
+        }
+        if !is_quoted_safe(b[k]) {
+            return false;
+        }
+        k += 1;
+    }
+    true
+}
 pub fn is_text_char(c: u8) -> bool {
     (1..=127).contains(&c) && c != b'\r' && c != b'\n'
 }
@@ -65,6 +84,17 @@ pub fn quoted_safe(rng: &mut Rng) -> String {
 }
 /// any valid UTF-8 without NUL (needs a literal when it is not quoted-safe)
 pub fn utf8_any(rng: &mut Rng) -> String {
+    if rng.chance(1, 14) {
+        // escape pairs in the middle and at the very end (`"Public Folders\\"`, `"say \"hi\""`)
+        let mut s = quoted_safe(rng);
+        for _ in 0..1 + rng.below(3) {
+            s.push_str(if rng.chance(1, 2) { "\\\\" } else { "\\\"" });
+            if rng.chance(1, 2) {
+                s.push_str(&quoted_safe(rng));
+            }
+        }
+        return s;
+    }
     match rng.below(10) {
         0..=3 => rng.pick(WORDS).to_string(),
         4..=5 => quoted_safe(rng),
@@ -210,7 +240,7 @@ impl<'r> Enc<'r> {
     }
     /// `string`: quoted when the content allows it, else literal
     pub fn string(&mut self, b: &[u8]) {
-        let can_quote = b.iter().all(|c| is_quoted_safe(*c));
+        let can_quote = is_escaped_wellformed(b);
         if can_quote && !self.force_literal && !(self.vary && self.rng.chance(1, 4)) {
             self.quoted(b)
         } else {
